@@ -1042,6 +1042,8 @@ def run(tier):
         sample = [r[6][0] for r in results if r[6] is not None and r[2] < 20000]
         random.Random(seed * 31 + 7).shuffle(sample)
         docmod.attach(res, sample, 'mutants', limit=(400 if tier == 'thorough' else 40))
+        from . import ctxdoc
+        ctxdoc.attach(res, sample[:(200 if tier == 'thorough' else 25)], [None, 'ST_LOOP'], 'mutants-ctx')
     res.notes['mutation_kinds'] = dict(sorted(dist_kind.items()))
     res.notes['maps'] = dict(sorted(dist_map.items()))
     res.notes['entry_points'] = dist_entry
